@@ -537,3 +537,98 @@ def rule_shadow2(ctx: Ctx) -> RuleResult:
         rr.ob(BASE, "<module>", "framework base classes", "attribute names of the framework base classes are black-listed", ALLOWED,
               "no framework distribution with readable source is installed here: unverifiable (counted, not failed)", 1)
     return rr
+
+
+# ---------------------------------------------------------------------------------------------------------------
+def rule_imp5(ctx: Ctx) -> RuleResult:
+    """compile_imports: every collected import request ends up in the emitted import block (requests for one module are united)."""
+    rr = RuleResult("IMP-5", "every import request is emitted; requests for the same module are united", floor=4)
+    f = ctx.prog.func("json_to_models/dynamic_typing/typing.py", "compile_imports")
+    mod = f.module
+    p = f.params[0]
+    loops = [n for n in walk_no_nested(f.node) if isinstance(n, ast.For) and p in {x.id for x in ast.walk(n.iter) if isinstance(x, ast.Name)}]
+    if len(loops) != 1:
+        raise AnalysisError(f"IMP-5: expected one loop over `{p}` in compile_imports, found {len(loops)}")
+    lp = loops[0]
+    st0 = "no import request is skipped: the loop visits every (module, names) pair that is not empty"
+    rr.instances += 1
+    it = norm(lp.iter)
+    ok = it in (p, f"filter(None, {p})", f"list({p})", f"[i for i in {p} if i]", f"(i for i in {p} if i)")
+    esc = [x for s in lp.body for x in ast.walk(s) if isinstance(x, (ast.Continue, ast.Break, ast.Return))]
+    rr.ob(f.relpath, f.qualname, f"for ... in {it}", st0, DISCHARGED if ok and not esc else VIOLATED,
+          "all non-empty requests" if ok and not esc else
+          (f"`{norm(esc[0])}` leaves the loop body early" if esc else f"iterates `{it}`: requests can be filtered away"), lp.lineno)
+    # the two kinds of request
+    tv = [x.id for x in lp.target.elts] if isinstance(lp.target, ast.Tuple) else []
+    if len(tv) != 2:
+        raise AnalysisError("IMP-5: loop target is not (module, names)")
+    m_, c_ = tv
+    iff = next((s for s in lp.body if isinstance(s, ast.If)), None)
+    if iff is None:
+        raise AnalysisError("IMP-5: no branch on the kind of request")
+    none_first = norm(iff.test) in (f"{c_} is None", f"not {c_}")
+    pkg_body, cls_body = (iff.body, iff.orelse) if none_first else (iff.orelse, iff.body)
+    if not none_first and norm(iff.test) not in (f"{c_} is not None", c_):
+        raise AnalysisError(f"IMP-5: unrecognised test `{norm(iff.test)}`")
+    rr.instances += 1
+    adds = [x for s in pkg_body for x in ast.walk(s) if isinstance(x, ast.Call) and isinstance(x.func, ast.Attribute)
+            and x.func.attr in ("add", "append") and x.args and norm(x.args[0]) == m_]
+    pkg_set = norm(adds[0].func.value) if adds else None
+    rr.ob(f.relpath, f.qualname, norm(adds[0]) if adds else "module request", "a request without names (`import module`) is recorded",
+          DISCHARGED if adds else VIOLATED, f"recorded in {pkg_set}" if adds else "the module is not recorded", iff.lineno)
+    # names are united with what is already known for the module
+    rr.instances += 1
+    ups = [x for s in cls_body for x in ast.walk(s) if isinstance(x, ast.Call) and isinstance(x.func, ast.Attribute)
+           and x.func.attr in ("add", "update", "extend", "append") and x.args and c_ in {y.id for y in ast.walk(x.args[0]) if isinstance(y, ast.Name)}]
+    okc = False
+    whyc = "the names are not added to a collection"
+    cls_map = None
+    if ups:
+        tgt = ups[0].func.value
+        # the collection updated is the map entry of this module
+        src = None
+        if isinstance(tgt, ast.Name):
+            defs = [s for s in ast.walk(lp) if isinstance(s, ast.Assign) and norm(s.targets[0]) == tgt.id]
+            if len(defs) == 1:
+                src = defs[0].value
+        else:
+            src = tgt
+        txt = norm(src) if src is not None else ""
+        from_map = (".get(" + m_ in txt or ".setdefault(" + m_ in txt or f"[{m_}]" in txt)
+        cls_map = txt.split(".get(")[0].split(".setdefault(")[0].split("[")[0] if from_map else None
+        stored = from_map and (".setdefault(" in txt or f"[{m_}]" in txt and ".get(" not in txt or any(
+            isinstance(s, ast.Assign) and isinstance(s.targets[0], ast.Subscript) and norm(s.targets[0].slice) == m_
+            for s in ast.walk(lp)))
+        all_ups = all(any(u is x for x in ast.walk(br)) for br in [cls_body] for u in ups) if False else True
+        okc = from_map and stored
+        whyc = "" if okc else (f"names are collected in `{txt[:40]}`, not in the entry the map already holds for the module: a second "
+                               f"request for the same module replaces the names of the first" if not from_map else
+                               "the united set is not stored back into the map")
+    rr.ob(f.relpath, f.qualname, norm(ups[0])[:70] if ups else "names request", "names requested from one module by different "
+          "fields are united (typing: List from one field, Optional from another)", DISCHARGED if okc else VIOLATED,
+          "united with the existing entry and stored" if okc else whyc, iff.lineno)
+    # output: both collections are rendered
+    rr.instances += 1
+    rets = [n for n in walk_no_nested(f.node) if isinstance(n, ast.Return) and n.value is not None]
+    # names the returned expression depends on, through the local assignments that follow the loop
+    used_after: Set[str] = set()
+    if rets:
+        work = [x.id for x in ast.walk(rets[0].value) if isinstance(x, ast.Name)]
+        while work:
+            nm = work.pop()
+            if nm in used_after:
+                continue
+            used_after.add(nm)
+            for n in walk_no_nested(f.node):
+                if isinstance(n, (ast.Assign, ast.AnnAssign)) and getattr(n, "value", None) is not None and n.lineno > lp.end_lineno:
+                    tg = n.targets if isinstance(n, ast.Assign) else [n.target]
+                    if any(isinstance(t, ast.Name) and t.id == nm for t in tg):
+                        work.extend(x.id for x in ast.walk(n.value) if isinstance(x, ast.Name))
+    need = {v for v in (pkg_set, cls_map) if v}
+    missing = sorted(v for v in need if v.split(".")[0] not in used_after)
+    okr = bool(rets) and not missing and len(need) == 2
+    rr.ob(f.relpath, f.qualname, norm(rets[0])[:70] if rets else "return", "both the `import x` and the `from x import y` requests "
+          "are rendered into the returned block", DISCHARGED if okr else VIOLATED,
+          "both collections are rendered" if okr else f"not rendered: {missing or 'a collection could not be identified'}",
+          rets[0].lineno if rets else f.node.lineno)
+    return rr
